@@ -169,6 +169,13 @@ theorem stack_counterexample :
   have := h e he
   omega
 
+/-- **The ghost fields are erasable**: rendering the same node in a context that differs only in the ghost fields
+(`frames`, `path`, `blocks`) gives the same outcome, the same state and the same events up to those fields — the
+frame and path counters never influence what the model does. -/
+theorem ghost_erasure (E : Env) (c : Cx) (s : St) (n : Node) (f p b : Nat) :
+    (render E (c.withGhost f p b) s n).core = (render E c s n).core :=
+  (ghost_all E).1 c s n f p b
+
 /-! ## (b) parsing -/
 section Parsing
 open LiquidVerif.ParseLoops
